@@ -23,8 +23,8 @@ REPO = "/repo"
 VARIANTS = {
     # name: (target dir, env)
     "prod": ("target", {}),
-    "tiny": ("target-tiny", {"ZLINK_VERIF_BUFFER_SIZE": "4", "ZLINK_VERIF_MAX_BUFFER_SIZE": "8"}),
-    "small": ("target-small", {"ZLINK_VERIF_BUFFER_SIZE": "16", "ZLINK_VERIF_MAX_BUFFER_SIZE": "512"}),
+    "tiny": ("target-tiny", {"ZLINK_VERIF_BUFFER_SIZE": "4", "ZLINK_VERIF_MAX_BUFFER_SIZE": "12"}),
+    "small": ("target-small", {"ZLINK_VERIF_BUFFER_SIZE": "16", "ZLINK_VERIF_MAX_BUFFER_SIZE": "528"}),
 }
 
 
